@@ -6,7 +6,8 @@ import Ruint.Model.Float
   (payloads of errors are not pinned by the property).
 * `satf*`, `fromf*`: exact spec. `wrapf*`: exact where the property pins it (`ok`, NaN ↦ 0), else `any`.
 * `tof64/tof32[v]`: spec = predicate "one of the two neighbours, exact when representable, `+∞` only at or
-  above the rounding threshold", plus the monitored hypothesis `msb limbs = msbSpec (val limbs)`.
+  above the rounding threshold"; `msb limbs = msbSpec (val limbs)` (now the theorem
+  `C18.most_significant_bits_spec`, it started as a monitored hypothesis) is still evaluated per case.
 * `mono64/mono32`: monotonicity on a pair.
 * `hw_*`: the IEEE model against the host FPU; the spec column echoes the implementation so that a
   disagreement is a MODEL-ERROR (machinery), never a verdict about the crate.
